@@ -2,6 +2,8 @@ package rules
 
 import (
 	"fmt"
+	"go/constant"
+	"go/types"
 	"sort"
 	"strings"
 	"sync"
@@ -692,4 +694,210 @@ func stateDiff(a, b string) string {
 		return string(s[lo:hi])
 	}
 	return fmt.Sprintf("…%s… versus …%s…", cut(ra), cut(rb))
+}
+
+// --- note and comment text is opaque ------------------------------------------------------------------
+
+func init() {
+	for _, name := range []string{"schema", "enum"} {
+		name := name
+		register(&Rule{ID: "SX-text-" + name, Min: 2, Run: func(c *load.Ctx, r *report.RuleResult) { runSXText(c, r, name) },
+			Doc: "scanner " + name + ": the text of a note or comment is opaque: in every reachable abstract state whose step function is a text state (inline / multi-line annotation text, inline / multi-line comment), every byte that does not begin the text's terminator — a line break for the one-line forms (and # inside an inline note), `*/` for a multi-line note, `###` for a multi-line comment — is accepted, stays in the text state and delivers no event other than the new-line event of a line break; a note that ends at a lone `*` makes `/* a*b */` fail where `// a*b` loads"})
+	}
+}
+
+// textTerminator: does byte b (with the following bytes la, -1 = unknown) begin the end of the text?
+var textTerminator = map[string]func(b int, la map[int]int) bool{
+	"stateInlineAnnotationText": func(b int, _ map[int]int) bool { return b == '\n' || b == '\r' || b == '#' },
+	"stateInlineComment":        func(b int, _ map[int]int) bool { return b == '\n' || b == '\r' },
+	// a transition that did not look at the following byte is taken whatever follows, so an unknown
+	// look-ahead byte counts as "not the terminator"
+	"stateMultiLineAnnotationText": func(b int, la map[int]int) bool { v, ok := la[1]; return b == '*' && ok && v == '/' },
+	"stateMultiLineComment": func(b int, la map[int]int) bool {
+		v1, ok1 := la[1]
+		v2, ok2 := la[2]
+		return b == '#' && ok1 && v1 == '#' && ok2 && v2 == '#'
+	},
+}
+
+func runSXText(c *load.Ctx, r *report.RuleResult, name string) {
+	sp := scannerSpecs[name]
+	g := exploreScanner(c, name, sp)
+	if g.err != nil {
+		r.Unk("anchor|"+sp.rel, "", g.err.Error())
+		return
+	}
+	count := map[string]int{}
+	bad := map[string]bool{}
+	for _, e := range g.edges {
+		full := implStepName(g.m, e.from.st)
+		from := baseStepName(full)
+		term, ok := textTerminator[from]
+		if !ok || isClosureStep(full) {
+			continue
+		}
+		la := map[int]int{}
+		for k, v := range e.res.LA {
+			la[k] = v
+		}
+		for i, v := range e.from.pending {
+			if v >= 0 {
+				la[i] = v // bytes already fixed by an earlier look-ahead (offset 0 is the fed byte)
+			}
+		}
+		if len(e.from.pending) > 0 {
+			// the fed byte was looked at before: shift so that offsets are relative to it
+			shifted := map[int]int{}
+			for i, v := range e.from.pending {
+				if i >= 1 && v >= 0 {
+					shifted[i] = v
+				}
+			}
+			for k, v := range e.res.LA {
+				shifted[k] = v
+			}
+			la = shifted
+		}
+		if term(e.input, la) {
+			continue
+		}
+		count[from]++
+		key := "text|impl=" + from
+		if bad[key] {
+			continue
+		}
+		in := fmt.Sprintf("%q", string([]byte{byte(e.input)}))
+		newline := e.input == '\n' || e.input == '\r'
+		switch {
+		case e.res.Kind == "reject":
+			bad[key] = true
+			r.Bad(key, c.Pos(g.m.next.Pos()), fmt.Sprintf("the byte %s inside the text is rejected (code %s); text reaching the state: %q", in, e.res.Code, e.from.path))
+		case e.res.Kind != "ok" || e.res.Next == nil:
+			// crashes and undecided transitions are SX-crash's business
+		case baseStepName(implStepName(g.m, e.res.Next)) != from:
+			bad[key] = true
+			r.Bad(key, c.Pos(g.m.next.Pos()), fmt.Sprintf("the byte %s%s, which does not begin the terminator, ends the text (the scanner goes to %s); text reaching the state: %q", in, laString(la), baseStepName(implStepName(g.m, e.res.Next)), e.from.path))
+		case len(e.res.Events) > 0 && !(newline && len(e.res.Events) == 1 && e.res.Events[0].Type == "NewLine"):
+			bad[key] = true
+			r.Bad(key, c.Pos(g.m.next.Pos()), fmt.Sprintf("the byte %s inside the text delivers %s; text reaching the state: %q", in, evsString(e.res.Events), e.from.path))
+		}
+	}
+	for _, st := range sortedKeys(count) {
+		if !bad["text|impl="+st] {
+			r.OK("text|impl="+st, "", fmt.Sprintf("%d transitions on bytes that do not begin the terminator stay in the text silently", count[st]))
+		}
+	}
+	if len(count) == 0 {
+		r.Unk("anchor|text states", "", "no reachable state whose step function is a note / comment text state")
+	}
+}
+
+func laString(la map[int]int) string {
+	if len(la) == 0 {
+		return ""
+	}
+	var ks []int
+	for k := range la {
+		ks = append(ks, k)
+	}
+	sort.Ints(ks)
+	s := " (followed by"
+	for _, k := range ks {
+		s += fmt.Sprintf(" %q", string([]byte{byte(la[k])}))
+	}
+	return s + ")"
+}
+
+// --- the annotation mode follows the stack --------------------------------------------------------------
+
+func init() {
+	register(&Rule{ID: "SX-mode-schema", Min: 3, Run: func(c *load.Ctx, r *report.RuleResult) { runSXMode(c, r, "schema-deep") },
+		Doc: "the schema scanner's annotation mode is a function of its stack: in every reachable abstract state, the mode flag says multi-line exactly when the innermost open annotation on the lexeme stack is a multi-line one (states inside a user comment aside, which suspend the flag) — explored over the deep state space (40,000 abstract states: an inline item note inside a rule object inside a multi-line annotation of an array item is within reach); a mode restored from a partial look at the stack (its bottom element only) leaves an inline item note inside a nested multi-line annotation in the wrong mode, so the same rules load or fail depending on how they are wrapped"})
+}
+
+// scalarField reads an integer-valued field of the scanner state.
+func (m *scanModel) scalarField(st *implState, name string) (int64, bool) {
+	root, ok := st.root.(*pe.Ptr)
+	if !ok || root.Obj == nil {
+		return 0, false
+	}
+	sv, ok := root.Obj.Val.(*pe.StructV)
+	if !ok {
+		return 0, false
+	}
+	stT := sv.T.Underlying().(*types.Struct)
+	for i := 0; i < stT.NumFields(); i++ {
+		if stT.Field(i).Name() == name {
+			v, ok := sv.F[i].(int64)
+			return v, ok
+		}
+	}
+	return 0, false
+}
+
+func runSXMode(c *load.Ctx, r *report.RuleResult, name string) {
+	sp := scannerSpecs[name]
+	g := exploreScanner(c, name, sp)
+	if g.err != nil {
+		r.Unk("anchor|"+sp.rel, "", g.err.Error())
+		return
+	}
+	// the flag's values by name
+	names := map[int64]string{}
+	if p := c.Pkg(sp.rel); p != nil {
+		for _, n := range []string{"annotationNone", "annotationInline", "annotationMultiLine"} {
+			if k, ok := p.Types.Scope().Lookup(n).(*types.Const); ok {
+				if v, exact := constant.Int64Val(k.Val()); exact {
+					names[v] = strings.TrimPrefix(n, "annotation")
+				}
+			}
+		}
+	}
+	if len(names) != 3 {
+		r.Unk("anchor|annotation constants", "", "annotationNone / annotationInline / annotationMultiLine not found")
+		return
+	}
+	count := map[string]int{}
+	bad := map[string]bool{}
+	for _, n := range g.nodes {
+		if len(n.pending) != 0 {
+			continue
+		}
+		step := baseStepName(implStepName(g.m, n.st))
+		if strings.Contains(step, "Comment") || step == "stateInlineAnnotationTextSkip" {
+			// a user comment suspends the flag until it ends; the skip state is the # comment that
+			// follows an inline annotation (the annotation is closed, the flag is reset at the line break)
+			continue
+		}
+		v, ok := g.m.scalarField(n.st, "annotation")
+		if !ok {
+			r.Unk("anchor|Scanner.annotation", "", "field annotation is not a decided value in state "+step)
+			return
+		}
+		want := "None"
+		stack := g.m.stackTypes(n.st)
+		for i := len(stack) - 1; i >= 0; i-- {
+			if stack[i] == "InlineAnnotationBegin" {
+				want = "Inline"
+				break
+			}
+			if stack[i] == "MultiLineAnnotationBegin" {
+				want = "MultiLine"
+				break
+			}
+		}
+		key := "mode|want=" + want
+		count[key]++
+		// the claim is about the multi-line question: the inline flag has a transitional state of
+		// its own (a # comment inside the rule object of an inline annotation clears it; the text
+		// is rejected at the next byte that is not a quoted key)
+		multiMismatch := (want == "MultiLine") != (names[v] == "MultiLine")
+		if multiMismatch && !bad[key+"|got="+names[v]] {
+			bad[key+"|got="+names[v]] = true
+			r.Bad(key+"|got="+names[v], c.Pos(g.m.next.Pos()), fmt.Sprintf("in step %s with the stack [%s] the annotation mode is %s; the innermost open annotation says %s; text reaching the state: %q", step, strings.Join(stack, " "), names[v], want, n.path))
+		}
+	}
+	for _, k := range sortedKeys(count) {
+		r.OK(k, "", fmt.Sprintf("%d abstract states", count[k]))
+	}
 }
